@@ -128,7 +128,7 @@ CHAIN_H = ["CreateDeployment", "DepositDeployment", "UpdateDeployment", "CloseDe
 def chain_job(owner):
     return {
         "pkg": "zzverif/chain", "pkgname": "zzchain",
-        "files": ["harness/CHAIN/chain.go", "harness/CHAIN/inv.go", "harness/CHAIN/step.go", "harness/CHAIN/events.go"],
+        "files": ["harness/CHAIN/chain.go", "harness/CHAIN/inv.go", "harness/CHAIN/step.go", "harness/CHAIN/events.go", "harness/CHAIN/c08.go"],
         "extra_overlays": {"x/market/keeper/zz_verif_export.go": "harness/CHAIN/export_market.go"},
         "shims": ["shim.go.tmpl", "shim_chain.go.tmpl"],
         "quick": ["Harness_CHAIN_%s_12" % h for h in CHAIN_H],
@@ -190,4 +190,23 @@ PROPS["C07"] = {
     "stubs": CHAIN_STUBS + ["sort.Slice/SliceStable -> the real stable_func/pdqsort_func SSA with an engine swapper", "Go map iteration order -> one choice point per range statement in code under test (all permutations)"],
     "outside_claim": ["non-determinism inside Tendermint/IAVL/protobuf encoding", "time.Now/rand/goroutines (none is reachable from the handlers: any call would end the path as unsupported and be reported)", "provider/cert handlers (no map, no iteration)"],
     "assumptions": CHAIN_ASSUME + ["native replay cannot force Go's map order; a counterexample is confirmed by re-running the real code until the two orders are observed"],
+}
+
+C08_M = ["Harness_C08_match_%s" % s for s in ("self_1", "self_2", "allof_1", "allof_2", "anyof_1", "anyof_2", "both", "none")]
+def c08_chain():
+    j = chain_job("C08")
+    j["quick"] = ["Harness_C08_bid_self", "Harness_C08_bid_auditors", "Harness_C08_update_provider"]
+    j["thorough"] = j["quick"]
+    j["reach"] = {"Harness_C08_bid_self": ["bid-accepted", "bid-rejected"], "Harness_C08_bid_auditors": ["bid-accepted", "bid-rejected"], "Harness_C08_update_provider": ["update-accepted", "update-rejected"]}
+    return j
+PROPS["C08"] = {
+    "jobs": [
+        {"pkg": "x/deployment/types", "files": ["harness/C08/match.go"], "quick": C08_M, "thorough": C08_M + ["Harness_C08_match_both_2"], "opts": {"timeout": 20000}},
+        c08_chain(),
+    ],
+    "bounds": {"quick": "attribute kernel MatchRequirements: <=2 required attributes, <=2 own, all-of/any-of lists of <=2 auditors out of 3, attestations by <=3 auditors with <=2 attributes, keys and values symbolic 1-byte strings; handler CreateBid: order absent/open/matched/closed (symbolic), provider registered or not, bidder = provider or = tenant, price and deposit symbolic amounts in 2 denominations, 1 required attribute, <=2 own attributes, all-of/any-of lists of <=1 of 2 auditors, attestations present or not; UpdateProvider: 2 leases of possibly other providers with symbolic state, <=2 new attributes",
+               "thorough": "adds a 2-requirement x 3-attestation kernel instance"},
+    "stubs": CHAIN_STUBS + ["regexp.MatchString -> native evaluation on concrete strings (attribute keys are concrete in handler-level harnesses)"],
+    "outside_claim": ["OrderMaxBids (not in the statement)", "attribute key syntax"],
+    "assumptions": ["the oracle is one-directional (accepted implies conditions): a stricter admission rule is not a violation"],
 }
